@@ -220,7 +220,7 @@ def s3_save_get(props=None):
     oid = fresh('other_recording_id', Str); ok_, om_ = full_key(kp, oid), meta_key(kp, oid)
     # write-order invariant J for every OTHER id holds at entry (class invariant): a discoverable recording is completely fetchable
     st.assume(z3.Implies(oid != rid, z3.Implies(b0[1][om_], b0[1][ok_])))
-    P = ('C07', 'C15'); obl = []; U = 'S3TapeCassette'; n = 0
+    P = ('C07', 'C15', 'C01'); obl = []; U = 'S3TapeCassette'; n = 0
     for s1, oc in ex.block(node.body, st):
         n += 1
         puts = [ev for ev in s1.g['blog'] if ev[0] == 'put']; dels = [ev for ev in s1.g['blog'] if ev[0] == 'delete_prefix']
